@@ -49,7 +49,7 @@ ASSUMPTIONS = [
     "scenarios are deadlock-free by construction: every pre-allocated qubit is freed before the first wait, every "
     "request is awaited -- in its own subroutine or (runs that do not avoid the recorded finding) in the application's next one",
 ]
-PROBES = ["request-outlives-its-subroutine", "purpose-id-differs-from-socket-id", "request-refused-by-stack", "sdk-form", "early-response", "deferred-busy-qubit", "two-requests-one-key", "cross-key-reorder", "wait-polled",
+PROBES = ["one-socket-id-towards-two-remote-nodes", "request-outlives-its-subroutine", "purpose-id-differs-from-socket-id", "request-refused-by-stack", "sdk-form", "early-response", "deferred-busy-qubit", "two-requests-one-key", "cross-key-reorder", "wait-polled",
           "wait_any", "wait_single", "create-role", "recv-role", "type-M", "type-K", "legacy-tuples", "qlink-objects",
           "two-apps-concurrent", "retry-fired"]
 
@@ -65,11 +65,12 @@ def emit_array(p: List[tuple], addr: int, values: List[Optional[int]]) -> None:
 
 
 REFUSE_TAG = 7777
-PMAPS = [lambda s: s, lambda s: s + 7, lambda s: 15 - s]   # socket id -> purpose id, per node and run
+# (socket id, remote node id) -> purpose id, per node and run; the last one depends on the remote node as well
+PMAPS = [lambda s, r=None: s, lambda s, r=None: s + 7, lambda s, r=None: 15 - s, lambda s, r=None: s + 10 * ((r or 0) % 9)]
 
 
 def install_purpose_map(ch, node, bump=None) -> int:
-    k = ch.weighted([2, 1, 1], "pmap")
+    k = ch.weighted([2, 1, 1, 1], "pmap")
     node.stack.pfun = PMAPS[k]
     return k
 
@@ -88,8 +89,18 @@ def gen_scenario(ch: Choices, calm: bool, tier: str = "quick", avoid: Any = ()) 
         n_socks = 1 + ch.draw(3 if deep else 2, "nsocks")
         socks = []
         for _ in range(n_socks):
-            socks.append({"sock": next_sock, "remote": GHOSTS[ch.draw(2, "remote")], "rsock": next_sock + 10})
-            next_sock += 1
+            remote = GHOSTS[ch.draw(2, "remote")]
+            # applications number their sockets independently: an id another application already uses may come back,
+            # towards a different remote node (requests are keyed by remote node and purpose)
+            reuse = [x["sock"] for ap in apps for x in ap["socks"] if x["remote"] != remote
+                     and not any(y["sock"] == x["sock"] and y["remote"] == remote for ap2 in apps for y in ap2["socks"])
+                     and not any(y["sock"] == x["sock"] for y in socks)]
+            if reuse and not calm and ch.flag(1, 3, "reuse-sock-id"):
+                sid = reuse[ch.draw(len(reuse), "which-sock")]
+                socks.append({"sock": sid, "remote": remote, "rsock": sid + 10, "reused": True})
+            else:
+                socks.append({"sock": next_sock, "remote": remote, "rsock": next_sock + 10})
+                next_sock += 1
         n_subs = 1 + ch.draw(4 if deep else 2, "nsubs")
         subs = []
         addr = 0
@@ -418,7 +429,7 @@ def run(ch: Choices, opts: Dict[str, Any]) -> Dict[str, Any]:
             qa = exr._get_register(aid, command.qubit_addr_array)
             n = len(exr._app_arrays[aid]._arrays[ent]) // 10
             role = "create" if mn == "create_epr" else "recv"
-            purpose = node.stack.pfun(sock)
+            purpose = node.stack.pfun(sock, remote)
             key = (role, remote, purpose)
             rq = exr._epr_create_requests if role == "create" else exr._epr_recv_requests
             if len(rq[(remote, purpose)]) > 1:
@@ -506,6 +517,8 @@ def run(ch: Choices, opts: Dict[str, Any]) -> Dict[str, Any]:
         return cur
 
     # ---- host tasks -------------------------------------------------------
+    if any(so.get("reused") for app in sc["apps"] for so in app["socks"]):
+        bump(probes, "one-socket-id-towards-two-remote-nodes")
     for app in sc["apps"]:
         node.init_app(app["id"], app["unit"])
         for so in app["socks"]:
